@@ -328,7 +328,9 @@ def h_hist(gid, mode, pert, extra=0, **a):
     exercised = False
     first = None
     with quiet():
-        for step, o in enumerate((oa, oa2, ob, oa)):
+        # C01 (value transparency) uses the 3-step history o_a, o_b, o_a; C02 (effectiveness) adds the o_a' repeat
+        seq = ((0, oa), (1, oa2), (2, ob), (3, oa)) if mode == "c02" else ((0, oa), (2, ob), (3, oa))
+        for step, o in seq:
             mark = len(env.log)
             got = outcome(lambda: real(o))
             new = env.log[mark:]
@@ -403,7 +405,7 @@ def fault_names(spec):
         ns.append("pred")
     if "applyopt" in kinds:
         ns.append("step")
-    return ns[:5]
+    return ns[:4]
 
 
 def h_fault(gid, xk, hist=False, **a):
@@ -439,28 +441,40 @@ def h_fault(gid, xk, hist=False, **a):
             return 0
         ch = chain(err)
         root = ch[-1]
-        if exp[1] == "user":
-            if not env_r.raised or not any(root is x for x in env_r.raised):
-                # the root may legitimately be a KeyError/... raised by user code; it must be the very object
-                if not any(any(c is x for x in env_r.raised) for c in ch):
-                    return 0
-        if exp[1] == "missing":
+        # several failures may compete (a cached node looks at its keys before running anything, the eager reference runs
+        # arguments first): any genuine original cause is accepted, a chain that does not end in one is not
+        if any(any(c is x for x in env_r.raised) for c in ch):
+            kind = "user"
+        elif missing_key(err) is not None:
+            kind = "missing"
             mk = missing_key(err)
-            if mk is None:
+            if exp[1] == "missing" and exp[2] is not None and mk != exp[2] and ref_exists(o, mk):
+                return 0          # the key reported as missing is present
+            if exp[1] != "missing" and ref_exists(o, mk) and not (g.tags & {"with", "preset", "map"}):
                 return 0
-            if exp[2] is not None and mk != exp[2] and ref_exists(o, mk):
-                return 0          # the key reported as missing is present (several keys may be missing: any of them is fine)
+        elif type(root).__name__ in ("SwitchError", "CaseWhenError"):
+            kind = "nobranch"
+        elif "domain" in g.tags and isinstance(root, ValueError):
+            kind = "domain"
+        else:
+            note("the cause chain does not lead to an original exception", [type(x).__name__ for x in ch])
+            return 0
+        if not any(faults.values()) and exp[1] in ("missing", "nobranch") and kind not in ("missing", "nobranch"):
+            return 0
     if not hist:
         return 2 if not _ok(got) else 1
     # history on the same long-lived graph: a failed evaluation stores nothing
     env_r.faults.clear()
-    ob = mkdict(g.universe, a, "b")
-    full = dict(ob)
-    for k, v in o.items():
-        if k not in full:
-            full[k] = v
+    filled = {}
+    for j in range(len(g.universe)):
+        present = a["p%da" % j]
+        for nm in ("v", "k", "n", "w"):
+            if "%s%da" % (nm, j) in a:
+                filled["%s%d" % (nm, j)] = a["%s%da" % (nm, j)] if present else a["%s%db" % (nm, j)]
+        filled["p%d" % j] = True
+    full = mkdict(g.universe, filled)          # the same options with every missing key supplied (fresh symbolic values)
     with quiet():
-        for o2 in (o, full, o):
+        for o2 in (o, full):
             again = outcome(lambda: real(o2))
             clean = outcome(lambda: fresh(g, Env())(o2))
             note("later evaluation", o2, "long-lived graph", again, "fresh graph", clean)
